@@ -32,8 +32,12 @@ func objOps(thorough bool) []objOp {
 		add(x+"={}", false, func(K float64) []*model.N { return st(model.Asg(x, model.Obj(nil, nil))) })
 		add(x+"=mkObj()", false, func(K float64) []*model.N { return st(model.Asg(x, model.CallN("mkObj"))) })
 		add(x+"=mkDeep()", false, func(K float64) []*model.N { return st(model.Asg(x, model.CallN("mkDeep"))) })
-		add(x+".k1[0].k2=K", false, func(K float64) []*model.N { return st(model.PAsg(model.Idx(model.Prop(id(x), "k1"), num(0)), "k2", num(K))) })
-		add(model.BiDelete+"("+x+".k1[0],k2)", false, func(K float64) []*model.N { return st(model.CallN(model.BiDelete, model.Idx(model.Prop(id(x), "k1"), num(0)), model.Str("k2"))) })
+		add(x+".k1[0].k2=K", false, func(K float64) []*model.N {
+			return st(model.PAsg(model.Idx(model.Prop(id(x), "k1"), num(0)), "k2", num(K)))
+		})
+		add(model.BiDelete+"("+x+".k1[0],k2)", false, func(K float64) []*model.N {
+			return st(model.CallN(model.BiDelete, model.Idx(model.Prop(id(x), "k1"), num(0)), model.Str("k2")))
+		})
 		add(x+"={k1:K}", false, func(K float64) []*model.N { return st(model.Asg(x, model.Obj([]string{"k1"}, []*model.N{num(K)}))) })
 		add(x+"={k3:K,k1:K+1,k2:K+2}", false, func(K float64) []*model.N {
 			return st(model.Asg(x, model.Obj([]string{"k3", "k1", "k2"}, []*model.N{num(K), num(K + 1), num(K + 2)})))
